@@ -434,13 +434,13 @@ def state_unsubscribe_table(ctx, program, rid):
     import itertools
     from ..absint import ClassV, DictV
     add_uid, del_uid = "state.py::State.notify_add", "state.py::State.notify_del"
-    names = ("d.a", "d.a.old", "d.b", "d.b.attr", "plain", "d.c.old.attr")  # (`d.c.old.attr`: an attribute of d.c's previous value - the entity is mentioned, so it is watched)
+    names = ("d.a", "d.a.old", "d.b", "d.b.attr", "plain", "d.c.old.attr", "d.z.w.v")  # (`d.c.old.attr`: an attribute of d.c's previous value - the entity is mentioned, so it is watched; `d.z.w.v` is no state name: subscribed or not, add and del must agree)
     n = 0
     for order in itertools.permutations(names):
         if order.index("d.a") > order.index("d.a.old") and order.index("d.b") > order.index("d.b.attr") and order[0] == "plain":
             pass
         n += 1
-        if n % 24:     # every 24th permutation: 30 orders
+        if n % 168:    # every 168th permutation: 30 orders
             continue
         var_names = ListV(tuple(Const(x) for x in order), "set")
         q, q2 = ObjV("q", "Queue"), ObjV("q2", "Queue")
@@ -456,7 +456,7 @@ def state_unsubscribe_table(ctx, program, rid):
                 continue
             tab = c.heap.get("State.notify")
             subscribed = sorted(e.v for e, qs in tab.items if isinstance(qs, DictV) and qs.get(q) is not None) if isinstance(tab, DictV) else None
-            if subscribed != ["d.a", "d.b", "d.c"]:
+            if [x for x in subscribed if x != "d.z"] != ["d.a", "d.b", "d.c"]:
                 bad = f"notify_add subscribes the queue to {subscribed}, the names mention the entities ['d.a', 'd.b', 'd.c']"
                 continue
             o2 = run_flow(program, del_uid, pol, args={"cls": ClassV("State"), "var_names": var_names, "queue": q}, heap=dict(c.heap))
